@@ -7,67 +7,93 @@ _inventory_altered, _generate_inventory_delta, apply) and
 breezy/git/transform.py (the same for git trees, _generate_index_changes).
 
 T1: the key set of CONFLICT_RESOLVERS, the pass count of resolve_conflicts and
-    six code-variant flags (does InventoryPreviewTree.get_file /
-    PreviewTree.is_executable read an unmodified entry at its tree path; do the
-    resolvers subscript by_parent()) are read from the source with `ast` and
-    written to Generated/C14.lean; Props/C14T1.lean proves that the model has a
-    resolver for exactly the extracted keys and uses the extracted pass count.
-T2 (three-way): random operation sequences (new_file / new_directory /
-    new_symlink / delete_contents / adjust_path / version_file /
-    unversion_file / set_executability / create_file / create_directory, in
-    the patterns merge, revert and build_tree use, producing parent loops,
-    duplicates, missing / non-directory / unversioned parents, duplicate ids,
-    versioning without contents, unresolvable executability conflicts) on real
-    bzr (2a) and git working-tree transforms.  Compared with the Lean model:
-    accept/reject of every operation, find_raw_conflicts() (in order), the
-    outcome of resolve_conflicts (clean / MalformedTransform + conflicts /
-    exception class), the dump of get_preview_tree() and the dump of the
-    working tree after apply().  A wild stream (unconstrained operations) is
-    compared on accept/reject + error kind and the initial conflicts only.
-Oracle (independent of the model): preview dump == working tree dump after
-    apply (paths, kinds, contents, executable bits, versioning) on every path
-    either of them or the previous tree has; resolve_conflicts ends clean or
-    with MalformedTransform; after MalformedTransform apply() raises
+    ten code-variant flags are read from the source with `ast` and written to
+    Generated/C14.lean: six for the repairs already in /repo (preview accessors
+    reading an unmodified entry at its tree path, resolvers using
+    by_parent().get, guarded cancel_creation, loops of new entries left alone)
+    and four for the repairs proposed for the defects this check reports
+    (upSkipsIdless, npReleasesId, unversionTolerant, deltaDropsOldId: the model
+    follows whichever variant the source is).  Props/C14T1.lean proves that the
+    model has a resolver for exactly the extracted keys, uses the extracted
+    pass count, and (source_flags_fixed) that both extracted flag records have
+    previewFixed and resolversFixed — the hypotheses of the positive theorems.
+T2 (three-way): operation sequences (new_file / new_directory / new_symlink /
+    delete_contents / adjust_path / version_file / unversion_file /
+    set_executability / create_file / create_directory) on real bzr (2a) and
+    git working-tree transforms, in four streams: `pre` (the patterns merge,
+    revert and build_tree use), `deep` (directories with files two and more
+    levels below renamed / re-parented), `wild` (unconstrained operations over
+    the registered paths; the root only as a parent) and `wildroot` (also on the
+    root; accept/reject + initial conflicts only).  Compared with the Lean
+    model: accept/reject of every operation, find_raw_conflicts() in order, the
+    outcome of resolve_conflicts (clean / MalformedTransform + conflicts as a
+    sorted list / exception class AND the conflict whose resolver raised), the
+    outcome of apply() (returned / which exception / is the tree as before),
+    the dump of get_preview_tree() and the dump of the working tree after
+    apply() — the model's applied dump is enumerated from its *disk* (inodes
+    with a directory entry, at the path their directory entries spell) plus
+    inventory entries without a file; git versioning is compared as it is
+    (no mask).  The hypotheses of the theorems (TT.wf, baseWf, gitHyps,
+    bzrHyps when nothing is re-versioned, fuelOk) are evaluated by the driver
+    on every conflict-free transform reached and a false one is a mismatch.
+Oracle (independent of the model), on every stream but `wildroot`: preview
+    dump == working tree dump after apply (paths, kinds, contents, executable
+    bits, versioning) on every path either of them or the previous tree has;
+    find_raw_conflicts / resolve_conflicts end clean or with
+    MalformedTransform, nothing else; after MalformedTransform apply() raises
     MalformedTransform too and the directory and the versioned paths are
-    exactly as before; a clean transform applies.  The same is run with lazily
-    registered trans-ids (no model) to cover `_add_tree_children`.
+    exactly as before; a clean transform applies, and a failed apply leaves
+    the tree as it was.  The same is run with lazily registered trans-ids (no
+    model) to cover `_add_tree_children`.
 
-Findings: six defect families found while this check was built (preview reads
-the base tree at the preview path; preview path bound to a removed sibling;
+Findings.  Repaired by fix: commits in /repo, plain violations if they return
+(corpus/C14 holds one minimal case each, run first): preview reads the base
+tree at the preview path; preview path bound to a removed sibling;
 GitPreviewTree.is_versioned of a new entry; git index not updated for children
 of renamed directories / version-only entries; by_parent()[id] KeyError in
-resolvers; git duplicate-directories cancel_creation) were repaired by fix:
-commits in /repo and are plain violations if they return (corpus/C14 holds one
-minimal case each, run first).  One family is a committed known finding and is
-the only one `_classify` names: preview-extras-lists-deleted-entry.  Two more
-defects (apply() of a clean transform ending with ImmortalLimbo because a new
-entry that fell back to a top-level limbo name stayed a limbo child of its
-parent; KeyError instead of MalformedTransform for a parent loop of new
-entries) were repaired by fix: commit ef486b5 and are plain violations too
-(corpus cases f8 / f9).
+resolvers; git duplicate-directories cancel_creation; ImmortalLimbo after a
+limbo fallback name; KeyError for a parent loop of new entries.  Known finding
+(committed): preview-extras-lists-deleted-entry.  Families found when the
+wild stream was given the whole pipeline and the oracle (`_classify_failure`
+computes them from the operations, the base tree, the conflict being resolved
+and the call chain of the exception; each has a witness theorem in
+Props/C14.lean and a repro script under /var/tmp/imp-C13C14/c14/repro):
+  bzr-unversioned-parent-without-file-id   resolve_unversioned_parent calls
+      version_file(file_id=None): ValueError out of resolve_conflicts;
+  bzr-non-directory-parent-new-file-id-reused   resolve_non_directory_parent
+      gives the replacement directory a file id the parent still holds in
+      _new_id: DuplicateKey;
+  bzr-unversion-of-unversioned-tree-path   _add_tree_children:
+      stored_kind(path) raises NoSuchFile out of find_raw_conflicts;
+  bzr-version-file-on-versioned-entry   version_file on a versioned path
+      without unversion_file: no conflict, the delta keeps the old id —
+      InconsistentDelta after the files were moved (partially applied tree), or
+      a stale versioned entry the preview does not show;
+  contentless-entry-moved-below-a-file   no conflict; TransformRenameFailed
+      (ENOTDIR, rolled back) or InconsistentDelta (partial) on apply;
+  directory-contents-replaced-below-kept-children   apply_deletions fails
+      with ENOTEMPTY after everything was changed; the children are gone.
 
-Generator limits (outside what merge / revert / build_tree can produce; seen to
-crash resolvers with DuplicateKey / ValueError / NoFinalPath and kept out of the
-structured stream, the wild stream meets them): children below a *new*
-non-directory; a non-directory that gets children and whose file id is changed
-in the same transform; a versioned entry below an unversioned tree directory
-that has no file id anywhere (resolve_unversioned_parent then calls
-version_file(file_id=None)); parent loops through new ids; unversion_file of a
-path that is not versioned (find_raw_conflicts raises NoSuchFile).
-
-Mutants this was built against (scratch worktree, on top of the proposed fix
-and spot-checked on the pinned code; all caught, o = by the oracle with a
-concrete input, t = by the correspondence): `range(10)` -> `range(1)` in
-resolve_conflicts (o,t,T1); "duplicate" dropped from CONFLICT_RESOLVERS (t,T1);
-resolve_duplicate moving the renamed entry instead of the other one (t);
-final_kind ignoring _removed_contents (o,t); _inventory_altered ignoring new
-file ids (o,t); _duplicate_entries counting removed unversioned entries (t);
-_apply_insertions skipping _set_executability (o,t); delta parent taken from
-the tree parent (o); apply() without _check_malformed (o); _parent_loops
-testing `in seen` before `== trans_id` (o,t); PreviewTree.kind from the tree
-kind for removed contents (o,t); resolve_missing_parent keeping the deletion
-of a directory with unversioned children (t).  Harmless rewrites that stay
-clean: conflict_pass collecting into a list; by_parent with setdefault.
+Mutants this was built against (scratch worktree; all caught, o = by the
+oracle with a concrete input, t = by the correspondence): git
+_generate_index_changes not re-keying the children of moved directories (o,t);
+delta parent file id taken from the tree parent (o,t); `range(10)` ->
+`range(2)` in resolve_conflicts (o,t; `range(1)`: also T1); resolve_duplicate
+moving the renamed entry instead of the other one (t); _apply_insertions
+skipping the rename from limbo for some ids (o); _parent_type_conflicts
+accepting symlink parents (o,t); PreviewTree.is_executable reading at the
+preview path (T1 source_flags_fixed, o,t); and from the first version:
+"duplicate" dropped from CONFLICT_RESOLVERS (t,T1); final_kind ignoring
+_removed_contents (o,t); _inventory_altered ignoring new file ids (o,t);
+_duplicate_entries counting removed unversioned entries (t); _apply_insertions
+skipping _set_executability (o,t); apply() without _check_malformed (o);
+_parent_loops testing `in seen` before `== trans_id` (o,t); PreviewTree.kind
+from the tree kind for removed contents (o,t); resolve_missing_parent keeping
+the deletion of a directory with unversioned children (t).  Harmless rewrites
+that stay clean: conflict_pass collecting into a list; by_parent with
+setdefault.  The four proposed repairs applied together
+(/var/tmp/imp-C13C14/c14/c14-resolver-and-delta-fixes.patch) leave the check
+with mismatches=0 and only the two unrepaired families.
 """
 import ast
 import os
@@ -78,26 +104,46 @@ import sys
 from vlib import env
 
 THEOREMS = [
-    "resolve_clean_or_error", "resolve_clean_reached", "resolve_zero_malformed", "run_all_or_nothing",
+    # the resolution loop and its three outcomes
+    "resolve_clean_or_error", "resolve_clean_reached", "resolve_zero_malformed",
+    "resolve_crashed_from_resolver", "conflictPass_unresolvable", "resolve_unresolvable_malformed",
+    "unversioned_parent_crash_witness", "non_dir_parent_duplicate_key_witness", "unversion_unversioned_raises_witness",
+    # all or nothing
+    "run_raise_keeps_disk_partial", "run_all_or_nothing", "apply_clean_applies", "inconsistent_delta_partial_witness",
+    "dangling_rename_failed_witness",
+    # apply (disk) = final, paths, preview = apply
     "resolveOne_no_resolver", "applyRemovals_get", "removal_fields", "applied_disk_eq_final",
-    "preview_entry_eq_final", "preview_eq_apply_disk", "preview_entry_partial",
-    "preview_path_lookup_witness", "git_index_dir_rename_witness",
-    "inventoryAltered_covers", "delta_put_sound", "delta_last_put_wins",
+    "applied_dirent_eq_final", "diskPath_applyDisk_eq_finalPath", "appliedPaths_eq_final",
+    "preview_entry_eq_final", "preview_eq_apply_disk", "preview_eq_apply_per_path", "preview_paths_on_applied_disk",
+    "preview_entry_partial", "preview_path_lookup_witness",
+    # versioning: git index and bzr inventory delta
+    "git_index_dir_rename_witness", "gitAdded_mem_iff", "gitIndex_mem_iff", "gitIndex_eq_final",
+    "inventoryAltered_covers", "delta_sound", "applied_inv_functional", "applied_inv_path_eq_final",
+    "delta_reversion_stale_witness",
+    # fuel
+    "finalPath_fuel_mono", "treePath_invPath_fuel_mono", "loopWalk_findChanged_fuel_mono",
+    # resolvers
     "resolve_versioning_no_contents_sound", "resolve_missing_parent_sound", "resolve_missing_parent_cancels",
     "resolve_duplicate_renames", "resolve_duplicate_id_sound",
 ]
-T1_THEOREMS = ["resolver_keys_match", "pass_count_matches", "flags_known"]
+T1_THEOREMS = ["resolver_keys_match", "pass_count_matches", "flags_known", "source_flags_fixed"]
 RULE = ("case = (format bzr-2a|git, random base tree of <= ~10 paths with files/dirs/symlinks/unversioned entries, "
-        "1..7 operation groups, stream pre|lazy|wild); distinct by canonical (base, ops); non-trivial = the "
+        "1..7 operation groups, stream pre|deep|lazy|wild|wildroot); distinct by canonical (base, ops); non-trivial = the "
         "transform has >= 1 raw conflict or changes >= 2 trans-ids")
 ASSUMPTIONS = [
     "every tree path has a trans-id before the operations start (the harness registers them; the lazy stream checks the real code without that)",
     "default orphan policy (transform.orphan_policy=conflict); case-sensitive POSIX file system with symlinks and executable bits",
+    "gitIndex_eq_final / delta_sound / the path theorems have explicit decidable hypotheses (TT.wf, baseWf, gitHyps, bzrHyps) that are "
+    "evaluated on every conflict-free transform the harness reaches, not derived from find_raw_conflicts() == []",
 ]
 TRUSTED = [
-    "git: the order of 'versioning no contents' conflicts (a Python set) is not compared",
-    "the disk is modelled as an inode table (directory entry + node per trans-id): a directory rename carries its children; limbo naming, stat caching and observed sha1s are not modelled",
-    "children sets of by_parent() are iterated in trans-id order in the model (Python iterates them in hash order)",
+    "git: the order of 'versioning no contents' conflicts (a Python set) is not compared; the conflicts a MalformedTransform carries are "
+    "compared as a sorted list (their order depends on set iteration in _reparent_transform_children, i.e. on PYTHONHASHSEED)",
+    "the disk is modelled as an inode table (directory entry + node per trans-id): a directory rename carries its children; limbo naming, "
+    "stat caching and observed sha1s are not modelled; a rename fails only in the ENOTDIR case of TT.dangling, and its rollback is exact (C13)",
+    "update_by_delta's consistency check is modelled as: no two entries share (parent id, name), every parent id is present and a directory",
+    "children sets of by_parent() are iterated in trans-id order in the model (Python iterates them in hash order); _path2trans_id is "
+    "modelled by the final paths plus the `shadowed` mask for names bound to entries that do not exist in the result",
 ]
 
 NAMES = ["a", "b", "c", "d"]
@@ -166,8 +212,18 @@ def source_facts():
                          for n in ast.walk(rd))
     rpl = _func(t, "resolve_parent_loop")
     loop_guarded = _mentions(rpl, "tree_path") or _mentions(rpl, "_tree_id_paths")
+    # proposed repairs of the resolver / delta defects this check reports (the model follows the source)
+    rup = _func(t, "resolve_unversioned_parent")
+    up_skips = any(isinstance(n, ast.Compare) and isinstance(n.left, ast.Name) and n.left.id == "file_id"
+                   and len(n.ops) == 1 and isinstance(n.ops[0], ast.Is)
+                   and isinstance(n.comparators[0], ast.Constant) and n.comparators[0].value is None for n in ast.walk(rup))
+    rnp = _func(t, "resolve_non_directory_parent")
+    np_releases = any(isinstance(n, ast.Call) and getattr(n.func, "attr", None) == "cancel_versioning" for n in ast.walk(rnp))
+    unversion_tolerant = any(isinstance(n, ast.Try) for n in ast.walk(_func(b, "TreeTransformBase._add_tree_children")))
+    delta_drops_old = _mentions(_func(b, "InventoryTreeTransform._generate_inventory_delta"), "_new_id")
     return dict(keys=keys, passes=passes, data_bzr=data_bzr, exec_by_tree=exec_by_tree, children_get=children_get,
-                cancel_guarded=cancel_guarded, loop_guarded=loop_guarded)
+                cancel_guarded=cancel_guarded, loop_guarded=loop_guarded, up_skips=up_skips, np_releases=np_releases,
+                unversion_tolerant=unversion_tolerant, delta_drops_old=delta_drops_old)
 
 
 def extract(ctx):
@@ -175,6 +231,10 @@ def extract(ctx):
     import extract as ex
     f = source_facts()
     b = lambda x: "true" if x else "false"
+    rest = ("execByTreePath := %s, childrenGet := %s, cancelGuarded := %s, loopGuarded := %s, upSkipsIdless := %s, "
+            "npReleasesId := %s, unversionTolerant := %s, deltaDropsOldId := %s"
+            % tuple(b(f[k]) for k in ("exec_by_tree", "children_get", "cancel_guarded", "loop_guarded", "up_skips",
+                                      "np_releases", "unversion_tolerant", "delta_drops_old")))
     text = ("-- GENERATED by harness/checks/c14.py from breezy/transform.py, breezy/bzr/transform.py, breezy/git/transform.py — do not edit\n"
             "import BreezyVerif.Model.C14\nnamespace BreezyVerif.C14\n"
             "/-- keys of `CONFLICT_RESOLVERS` -/\n"
@@ -182,12 +242,10 @@ def extract(ctx):
             "/-- `for n in range(N)` in `resolve_conflicts` -/\n"
             "def sourcePassCount : Nat := %d\n"
             "/-- code variant found in the source (bzr trees) -/\n"
-            "def sourceFlagsBzr : Flags := { git := false, dataByTreePath := %s, execByTreePath := %s, childrenGet := %s, cancelGuarded := %s, loopGuarded := %s }\n"
+            "def sourceFlagsBzr : Flags := { git := false, dataByTreePath := %s, %s }\n"
             "/-- code variant found in the source (git trees; GitPreviewTree.get_file reads the tree path) -/\n"
-            "def sourceFlagsGit : Flags := { git := true, dataByTreePath := true, execByTreePath := %s, childrenGet := %s, cancelGuarded := %s, loopGuarded := %s }\n"
-            "end BreezyVerif.C14\n" % (", ".join(ex.lean_str(k) for k in f["keys"]), f["passes"],
-                                        b(f["data_bzr"]), b(f["exec_by_tree"]), b(f["children_get"]), b(f["cancel_guarded"]), b(f["loop_guarded"]),
-                                        b(f["exec_by_tree"]), b(f["children_get"]), b(f["cancel_guarded"]), b(f["loop_guarded"])))
+            "def sourceFlagsGit : Flags := { git := true, dataByTreePath := true, %s }\n"
+            "end BreezyVerif.C14\n" % (", ".join(ex.lean_str(k) for k in f["keys"]), f["passes"], b(f["data_bzr"]), rest, rest))
     ex.write_if_changed(os.path.join(env.VERIF, "lean/BreezyVerif/Generated/C14.lean"), text)
     ctx.extra["source_facts"] = f
     return "resolver keys=%d passes=%d flags=%s" % (len(f["keys"]), f["passes"], _flags("2a", f))
@@ -203,9 +261,11 @@ def _facts(ctx):
 
 def _flags(fmt, f):
     tf = lambda x: "T" if x else "F"
+    rest = "".join(tf(f[k]) for k in ("exec_by_tree", "children_get", "cancel_guarded", "loop_guarded", "up_skips",
+                                      "np_releases", "unversion_tolerant", "delta_drops_old"))
     if fmt == "git":
-        return "T" + "T" + tf(f["exec_by_tree"]) + tf(f["children_get"]) + tf(f["cancel_guarded"]) + tf(f["loop_guarded"])
-    return "F" + tf(f["data_bzr"]) + tf(f["exec_by_tree"]) + tf(f["children_get"]) + tf(f["cancel_guarded"]) + tf(f["loop_guarded"])
+        return "T" + "T" + rest
+    return "F" + tf(f["data_bzr"]) + rest
 
 
 # --------------------------------------------------------------------------
@@ -476,7 +536,9 @@ def gen_ops(rng, entries, n, fmt):
     return handles, ops
 
 
-def gen_wild_ops(rng, entries, n):
+def gen_wild_ops(rng, entries, n, root_ops=True):
+    """unconstrained operations.  root_ops=False: the root trans-id is only used as a parent (it is
+    never moved, deleted, re-created, versioned or chmod-ed)"""
     handles = [""] + [e[0] for e in entries]
     for cand in ["y", "z"]:
         if rng.random() < 0.5:
@@ -487,19 +549,20 @@ def gen_wild_ops(rng, entries, n):
     for _ in range(n):
         r = rng.random()
         name = rng.choice(NAMES + ["e", "f"])
-        anyh = lambda: rng.randrange(nh)
+        anyp = lambda: rng.randrange(nh)
+        anyh = anyp if root_ops or nh < 2 else (lambda: rng.randrange(1, nh))
         fids += 1
         fid = None if rng.random() < 0.3 else "fid%d" % fids
         if r < 0.15:
-            ops.append(["new_file", name, anyh(), "N%d" % rng.randint(0, 9), fid, rng.choice([None, None, True, False])]); nh += 1
+            ops.append(["new_file", name, anyp(), "N%d" % rng.randint(0, 9), fid, rng.choice([None, None, True, False])]); nh += 1
         elif r < 0.25:
-            ops.append(["new_directory", name, anyh(), fid]); nh += 1
+            ops.append(["new_directory", name, anyp(), fid]); nh += 1
         elif r < 0.30:
-            ops.append(["new_symlink", name, anyh(), "g1", fid]); nh += 1
+            ops.append(["new_symlink", name, anyp(), "g1", fid]); nh += 1
         elif r < 0.45:
             ops.append(["delete_contents", anyh()])
         elif r < 0.68:
-            ops.append(["adjust_path", name, anyh(), anyh()])
+            ops.append(["adjust_path", name, anyp(), anyh()])
         elif r < 0.78:
             ops.append(["version_file", anyh(), "fid%d" % fids])
         elif r < 0.86:
@@ -521,8 +584,8 @@ def build_case(seed_tuple):
     if stream == "deep":
         entries, handles, ops = gen_deep_case(rng, fmt)
         stream = "pre"
-    elif stream == "wild":
-        handles, ops = gen_wild_ops(rng, entries, rng.randint(1, 6))
+    elif stream in ("wild", "wildroot"):
+        handles, ops = gen_wild_ops(rng, entries, rng.randint(1, 6), root_ops=stream == "wildroot")
     else:
         handles, ops = gen_ops(rng, entries, rng.randint(1, 7), fmt)
     return dict(id=list(seed_tuple), fmt=fmt, stream=stream, entries=entries, handles=handles, ops=ops)
@@ -706,6 +769,20 @@ def run_ops(tt, case, fidmap, prereg):
     return "ok"
 
 
+def _chain(e):
+    """(function names of the traceback below the harness, the raw conflict `conflict_pass` was resolving)"""
+    names, conflict = [], None
+    tb = e.__traceback__
+    while tb is not None:
+        names.append(tb.tb_frame.f_code.co_name)
+        if tb.tb_frame.f_code.co_name == "conflict_pass":
+            c = tb.tb_frame.f_locals.get("conflict")
+            if c is not None:
+                conflict = conf_str([c])
+        tb = tb.tb_next
+    return names[1:], conflict
+
+
 def run_real(case):
     """Run one case on the real code.  Returns a JSON-able dict."""
     from breezy.transform import MalformedTransform, resolve_conflicts
@@ -727,7 +804,7 @@ def run_real(case):
     before = dump_disk(root)
     res["before"] = before
     copy = None
-    if case["stream"] != "wild":
+    if case["stream"] != "wildroot":
         copy = env.fresh_dir("cp")
         os.rmdir(copy)
         shutil.copytree(root, copy, symlinks=True)
@@ -752,7 +829,8 @@ def run_real(case):
             res["resolve_tb"] = traceback.format_exc()[-700:]
             fr = traceback.extract_tb(e.__traceback__)[-1]
             res["resolve_frame"] = "%s: %s" % (fr.name, fr.line)
-        if case["stream"] == "wild":
+            res["resolve_chain"], res["resolve_conflict"] = _chain(e)
+        if case["stream"] == "wildroot":
             return res
         if not res["resolve"].startswith("crashed"):
             try:
@@ -764,12 +842,14 @@ def run_real(case):
                 import traceback
                 res["apply"] = "E:" + type(e).__name__
                 res["apply_tb"] = traceback.format_exc()[-700:]
+                res["apply_chain"] = _chain(e)[0]
+                res["apply_errno"] = getattr(e, "errno", None)
     finally:
         try:
             tt.finalize()
         except Exception as e:
             res["finalize"] = "E:" + type(e).__name__
-        if res.get("oplog") == "ok" and "conf0" in res and not res["conf0"].startswith("E:") and case["stream"] != "wild":
+        if res.get("oplog") == "ok" and "conf0" in res and not res["conf0"].startswith("E:") and case["stream"] != "wildroot":
             try:
                 res["after"] = dump_disk(root)
             except Exception as e:
@@ -866,10 +946,18 @@ def parse_dump(s):
 
 def parse_reply(r):
     f = r.split(" ")
-    if len(f) != 7:
+    if len(f) != 9:
         return dict(raw=r)
-    return dict(oplog=f[0], conf0=f[1], resolve=f[2], preview=parse_dump(f[3]), applied=parse_dump(f[4]),
-                shadowed=[] if f[5] == "-" else f[5].split(";"), final=parse_dump(f[6]))
+    resolve, at = f[2], None
+    if resolve.startswith("crashed:") and "@" in resolve:
+        resolve, at = resolve.split("@", 1)
+    diag = {}
+    if f[8] != "-":
+        for kv in f[8].split(","):
+            k, v = kv.split("=")
+            diag[k] = v
+    return dict(oplog=f[0], conf0=f[1], resolve=resolve, resolve_at=at, preview=parse_dump(f[3]), applied=parse_dump(f[4]),
+                shadowed=[] if f[5] == "-" else f[5].split(";"), final=parse_dump(f[6]), apply=f[7], diag=diag)
 
 
 # --------------------------------------------------------------------------
@@ -926,7 +1014,7 @@ def _under(p, prefixes):
     return any(p == q or p.startswith(q + "/") for q in prefixes)
 
 
-def _classify(fmt, d, m, res=None, facts=None):
+def _classify(fmt, d, m, res=None, facts=None, case=None):
     """family of one preview-vs-applied discrepancy `d` = (path, field, preview value, applied value),
     computed from the concrete discrepancy.  Only the committed known finding has a family; every
     other discrepancy (including the defects repaired by the fix: commits, should they return) is a
@@ -937,6 +1025,109 @@ def _classify(fmt, d, m, res=None, facts=None):
         # extras() yields the path of an entry whose contents are deleted and which is unversioned,
         # while kind()/is_versioned() of the same preview tree say it does not exist
         return "preview-extras-lists-deleted-entry"
+    stale = (field == "presence" and pv is None and av is not None and av[0] is None and av[3] is True) or \
+            (field == "versioned" and pv is False and av is True)
+    if (fmt != "git" and stale and case is not None and res is not None and m is not None and "raw" not in m
+            and m.get("diag", {}).get("rev", "-") != "-"
+            and any(_tree_versioned(case, res, op[1]) and not any(u[1] == op[1] for u in _op_targets(case, "unversion_file"))
+                    for op in _op_targets(case, "version_file"))):
+        # version_file() of a versioned tree path without unversion_file, renamed in the same transform:
+        # the old file id stays in the inventory at the old path (a versioned entry without a file, or
+        # whatever else ends up at that path shows as versioned)
+        return "bzr-version-file-on-versioned-entry"
+    return None
+
+
+def _scrub(line):
+    """no absolute scratch paths / random ids in messages"""
+    import re
+    line = re.sub(r"/var/tmp/[^ :'\"]*?/(wt|cp)[0-9_]+", "<tree>", line)
+    return re.sub(r"\[[0-9, ]{20,}\]", "[<file id>]", line)[:300]
+
+
+def _op_targets(case, kind):
+    return [op for op in case["ops"] if op[0] == kind]
+
+
+def _tree_versioned(case, res, h):
+    """is handle `h` a tree path that the base tree versions?"""
+    return 1 <= h <= len(case["entries"]) and bool(res["basev"][h - 1])
+
+
+def _contentless_below_file(case):
+    """does an adjust_path move a tree path that has no contents (it does not exist, or its contents
+    are deleted and not re-created) to some parent?  (that the parent ends as a non-directory is
+    taken from the model's diagnosis or the errno)"""
+    nh = len(case["handles"])
+    ents = {i + 1: e for i, e in enumerate(case["entries"])}
+    created = {op[-1] for op in case["ops"] if op[0] in ("create_file", "create_directory")}
+    deleted = {op[1] for op in _op_targets(case, "delete_contents")}
+    return any(1 <= op[3] < nh and op[3] not in created and (op[3] not in ents or op[3] in deleted)
+               for op in _op_targets(case, "adjust_path"))
+
+
+def _classify_failure(case, res, m, where):
+    """family of a failure of the resolution / apply machinery on the unchanged code, computed from
+    the concrete input (operations + base tree), the conflict being resolved and the call chain of
+    the exception.  Anything else is a plain violation (family None)."""
+    fmt = case["fmt"]
+    nh = len(case["handles"])
+    if where == "conflicts":
+        # F-c: unversion_file() of a tree path that is not versioned; InventoryTreeTransform.
+        # _add_tree_children asks stored_kind(path) for it (the git variant catches NoSuchFile)
+        if fmt != "git" and res.get("conf0") == "E:NoSuchFile" and any(
+                1 <= op[1] < nh and not _tree_versioned(case, res, op[1]) for op in _op_targets(case, "unversion_file")):
+            return "bzr-unversion-of-unversioned-tree-path"
+        return None
+    if where == "resolve":
+        chain = res.get("resolve_chain") or []
+        at = res.get("resolve_conflict") or ""
+        exc = res["resolve"][8:]
+        tid = int(at.split(":")[1]) if at.count(":") >= 1 and at.split(":")[1].isdigit() else None
+        if (fmt != "git" and exc == "ValueError" and at.startswith("up:") and chain[-2:] == ["resolve_unversioned_parent", "version_file"]
+                and tid is not None and not _tree_versioned(case, res, tid)):
+            # F-a: the unversioned parent has no file id in the tree (a new directory, an unversioned
+            # or missing tree path): resolve_unversioned_parent calls version_file(file_id=None)
+            return "bzr-unversioned-parent-without-file-id"
+        if (fmt != "git" and exc == "DuplicateKey" and at.startswith("np:")
+                and chain[-5:] == ["resolve_non_directory_parent", "new_directory", "_new_entry", "version_file", "unique_add"]):
+            # F-b: the non-directory parent carries a file id assigned in this transform (version_file /
+            # new_* / re-versioned by resolve_unversioned_parent): the replacement directory is created
+            # with the same id while the parent still holds it in _new_id
+            return "bzr-non-directory-parent-new-file-id-reused"
+        return None
+    if where == "apply":
+        chain = res.get("apply_chain") or []
+        exc = (res.get("apply") or "")[2:]
+        if fmt != "git" and exc == "InconsistentDelta" and chain[-1:] == ["apply_inventory_delta"]:
+            # F-d: version_file() of a tree path that is versioned and is not unversioned by the
+            # transform: the delta adds the new id at a path the old id still occupies
+            rev = [op for op in _op_targets(case, "version_file") if _tree_versioned(case, res, op[1])
+                   and not any(u[1] == op[1] for u in _op_targets(case, "unversion_file"))]
+            why = (res.get("apply_tb") or "").strip().splitlines()[-1:]
+            why = why[0] if why else ""
+            if "already occupied" in why and rev and (m is None or "raw" in m or m.get("diag", {}).get("rev", "-") != "-"):
+                return "bzr-version-file-on-versioned-entry"
+            # F-e, versioned variant: the delta puts a versioned entry without contents below a file
+            if "not a directory" in why and _contentless_below_file(case) and (
+                    m is None or "raw" in m or m.get("diag", {}).get("vbn", "-") != "-"):
+                return "contentless-entry-moved-below-a-file"
+            return None
+        if exc == "TransformRenameFailed" and res.get("apply_errno") == 20 and chain[-2:] == ["_apply_insertions", "rename"]:
+            # F-e: a tree path without contents is moved below a file: no conflict is reported (the
+            # entry has no contents) but the rename from limbo fails with ENOTDIR, not ENOENT
+            if _contentless_below_file(case) and (m is None or "raw" in m or m.get("diag", {}).get("dang", "-") != "-"):
+                return "contentless-entry-moved-below-a-file"
+            return None
+        if exc == "OSError" and chain[-1:] == ["apply_deletions"]:
+            # F-f: the contents of a tree directory are deleted and re-created as a directory while
+            # entries stay below it: they go to pending-deletion with the old directory
+            ents = {i + 1: e for i, e in enumerate(case["entries"])}
+            swapped = [d[1] for d in _op_targets(case, "delete_contents") if d[1] in ents and ents[d[1]][1] == "directory"
+                       and any(c[1] == d[1] for c in _op_targets(case, "create_directory"))]
+            if swapped:
+                return "directory-contents-replaced-below-kept-children"
+            return None
     return None
 
 
@@ -961,7 +1152,7 @@ def check_case(ctx, case, res, reply, flags):
         if "raw" in m:
             ctx.mismatch(cid, "(see real)", m["raw"], tie="T2 model reply")
             return
-        if stream == "wild":
+        if stream == "wildroot":
             impl = "%s %s" % (res.get("oplog"), _canon_conf(fmt, res.get("conf0", "-")) if res.get("oplog") == "ok" else "-")
             mod = "%s %s" % (m["oplog"], _canon_conf(fmt, m["conf0"]) if m["oplog"] == "ok" else "-")
             ctx.traces += 1
@@ -969,16 +1160,51 @@ def check_case(ctx, case, res, reply, flags):
                 ctx.mismatch(cid, impl, mod, tie="T2 wild accept/reject + conflicts")
         else:
             def _cr(r):
-                return "malformed:" + _canon_conf(fmt, r[10:]) if r.startswith("malformed:") else r
+                return "malformed:" + _canon_conf(fmt, r[10:], True) if r.startswith("malformed:") else r
             impl = "%s %s %s" % (res.get("oplog"), _canon_conf(fmt, res.get("conf0", "-")), _cr(res.get("resolve", "-")))
             mod = "%s %s %s" % (m["oplog"], _canon_conf(fmt, m["conf0"]), _cr(m["resolve"]))
             ctx.traces += 1
             if impl != mod:
                 ctx.mismatch(cid, impl, mod, tie="T2 ops/conflicts/resolution")
-            elif res.get("resolve") == "clean" and res.get("apply") == "ok":
+            elif res.get("resolve", "").startswith("crashed"):
+                # the conflict whose resolver raised
+                if m.get("resolve_at") != res.get("resolve_conflict"):
+                    ctx.mismatch(cid, "crashed at %s" % res.get("resolve_conflict"), "crashed at %s" % m.get("resolve_at"),
+                                 tie="T2 crashing resolver")
+            elif res.get("resolve") == "clean":
+                # the outcome of apply(): returned / which exception / is the tree as before
+                ra = res.get("apply")
+                if ra == "malformed":
+                    ra = "E:MalformedTransform"
+                if ra != "ok":
+                    ra = "%s:%s" % (ra, "same" if res.get("after") == res.get("before") else "changed")
+                if _apply_modelled(ra) or m["apply"] != "ok":
+                    if ra != m["apply"]:
+                        ctx.mismatch(cid, "apply " + str(ra), "apply " + m["apply"], tie="T2 apply outcome")
+                ctx.count("hyp:wf=%s" % m["diag"].get("wf"))
+                ctx.count("hyp:baseWf=%s" % m["diag"].get("bwf"))
+                ctx.count("hyp:gitHyps(%s,apply %s)=%s" % (fmt, "ok" if res.get("apply") == "ok" else "raised", m["diag"].get("ghyp")))
+                if fmt != "git":
+                    ctx.count("hyp:bzrHyps(rev=%s)=%s" % ("none" if m["diag"].get("rev") == "-" else "some", m["diag"].get("bhyp")))
+                if m["diag"].get("wf") != "T":
+                    ctx.mismatch(cid, "(reached by operations + resolvers)", "TT.wf = false", tie="T2 hypothesis wf")
+                if m["diag"].get("bwf") != "T":
+                    ctx.mismatch(cid, "(harness base tree)", "TT.baseWf = false", tie="T2 hypothesis baseWf")
+                if fmt != "git" and m["diag"].get("bhyp") != "T" and m["diag"].get("rev") == "-":
+                    ctx.mismatch(cid, "(conflict-free transform reached by operations + resolvers, nothing re-versioned)",
+                                 "TT.bzrHyps = false", tie="T2 hypothesis bzrHyps")
+                if m["diag"].get("rhyp") != "T":
+                    ctx.mismatch(cid, "(conflict-free transform reached by operations + resolvers)", "TT.rootHyps = false",
+                                 tie="T2 hypothesis rootHyps")
+                if m["diag"].get("fuel") != "T":
+                    ctx.mismatch(cid, "(transform reached by operations + resolvers)", "TT.fuelOk = false", tie="T2 hypothesis fuelOk")
+                if m["diag"].get("ghyp") != "T":
+                    ctx.mismatch(cid, "(conflict-free transform reached by operations + resolvers)", "TT.gitHyps = false",
+                                 tie="T2 hypothesis gitHyps")
+            if impl == mod and res.get("resolve") == "clean" and res.get("apply") == "ok" and m["apply"] == "ok":
                 after = _norm_real(fmt, res.get("after", {}))
                 ma = _norm_model(fmt, m["applied"])
-                da = [d for d in _diffs(after, ma) if not (d[1] == "versioned" and d[3] == "?")]
+                da = _diffs(after, ma)
                 if da:
                     ctx.mismatch(cid, "applied " + repr(da[:4]), "(model applied)", tie="T2 applied tree")
                 if "preview" in res:
@@ -991,16 +1217,22 @@ def check_case(ctx, case, res, reply, flags):
                     if dd:
                         ctx.mismatch(cid, "preview " + repr(dd[:4]), "(model preview)", tie="T2 preview tree")
     # ---------------- oracle
-    if stream == "wild" or res.get("oplog") != "ok" or "resolve" not in res:
+    if stream == "wildroot" or res.get("oplog") != "ok":
         return
     before = res["before"]
+    if "resolve" not in res:
+        # find_raw_conflicts() itself raised: resolve_conflicts() cannot end clean or with MalformedTransform
+        ctx.violation(cid, "find_raw_conflicts() raised %s: resolve_conflicts cannot end clean or with MalformedTransform"
+                      % res.get("conf0", "?")[2:], family=_classify_failure(case, res, m, "conflicts"))
+        return
     r = res["resolve"]
     if r.startswith("crashed"):
-        fam = None
+        fam = _classify_failure(case, res, m, "resolve")
         tb = res.get("resolve_tb", "")
         fr = res.get("resolve_frame", "")
-        ctx.violation(cid, "resolve_conflicts raised %s instead of returning or raising MalformedTransform (conflicts %s) in %s"
-                      % (r[8:], res.get("conf0"), fr or (tb.strip().splitlines()[-1] if tb else "")), family=fam)
+        ctx.count("crash:%s" % (fam or "unclassified"))
+        ctx.violation(cid, "resolve_conflicts raised %s instead of returning or raising MalformedTransform (conflicts %s, resolving %s) in %s"
+                      % (r[8:], res.get("conf0"), res.get("resolve_conflict"), fr or (tb.strip().splitlines()[-1] if tb else "")), family=fam)
         if res.get("after") is not None and res["after"] != before:
             ctx.violation(cid, "working tree changed although resolve_conflicts raised %s" % r[8:])
         return
@@ -1013,11 +1245,14 @@ def check_case(ctx, case, res, reply, flags):
         return
     # clean
     if res.get("apply") != "ok":
+        fam = _classify_failure(case, res, m, "apply")
+        ctx.count("applyfail:%s" % (fam or "unclassified"))
         ctx.violation(cid, "conflict-free transform (after resolve_conflicts) does not apply: %s %s"
-                      % (res.get("apply"), (res.get("apply_tb") or "").strip().splitlines()[-1:]))
+                      % (res.get("apply"), [_scrub(x) for x in (res.get("apply_tb") or "").strip().splitlines()[-1:]]), family=fam)
         if res.get("after") != before:
-            ctx.violation(cid, "partially applied tree after failed apply(): %r"
-                          % (_diffs(_norm_real(fmt, before), _norm_real(fmt, res.get("after") or {}))[:4],))
+            ctx.violation(cid, "partially applied tree after failed apply() (%s): %r"
+                          % (res.get("apply"), _diffs(_norm_real(fmt, before), _norm_real(fmt, res.get("after") or {}))[:4]),
+                          family=fam)
         return
     if "preview_fail" in res:
         ctx.violation(cid, "get_preview_tree() of a conflict-free transform failed: %s %s"
@@ -1034,7 +1269,7 @@ def check_case(ctx, case, res, reply, flags):
                           family=_classify(fmt, (p, "presence", res["preview"].get(p), None), m, res, facts))
     seen = set()
     for d in _diffs(pv, after):
-        fam = _classify(fmt, d, m, res, facts)
+        fam = _classify(fmt, d, m, res, facts, case)
         if (fam, d[1]) in seen:
             continue
         seen.add((fam, d[1]))
@@ -1043,9 +1278,22 @@ def check_case(ctx, case, res, reply, flags):
                       % (d[0], d[1], d[2], d[3]), family=fam)
 
 
-def _canon_conf(fmt, s):
-    """git keeps `_versioned` in a set: the "versioning no contents" conflicts come in hash order"""
-    if fmt != "git" or s in ("-", None) or s.startswith("E:"):
+def _apply_modelled(ra):
+    """apply() outcomes the model predicts (the others — e.g. ENOTEMPTY in apply_deletions — are
+    left to the oracle)"""
+    return ra == "ok" or ra.split(":")[1] in ("MalformedTransform", "InconsistentDelta", "TransformRenameFailed")
+
+
+def _canon_conf(fmt, s, after_resolvers=False):
+    """git keeps `_versioned` in a set: the "versioning no contents" conflicts come in hash order.
+    after_resolvers: `_reparent_transform_children` iterates a *set* of trans-ids, so the insertion
+    order of `_new_parent` / `_new_name` — and with it the order of the conflicts of later passes —
+    depends on PYTHONHASHSEED: the conflicts a MalformedTransform carries are compared as a sorted list."""
+    if s in ("-", None) or s.startswith("E:"):
+        return s
+    if after_resolvers:
+        return ",".join(sorted(s.split(",")))
+    if fmt != "git":
         return s
     items = s.split(",")
     out, run = [], []
@@ -1072,7 +1320,7 @@ def _cases(ctx, n):
     for fmt in ("2a", "git"):
         for k in range(n):
             r = k % 20
-            stream = "wild" if r in (3, 13) else "lazy" if r in (5, 9, 15, 19) else "pre"
+            stream = "wild" if r in (3, 7, 13, 17) else "wildroot" if r == 11 else "lazy" if r in (5, 9, 15, 19) else "pre"
             out.append(build_case((ctx.seed, fmt, k, stream)))
             i += 1
         for k in range(max(12, n // 12)):
